@@ -6,5 +6,5 @@ CONSTANTS
   Starts = {0, 3}
   CutModes = {0, 1}
   Junk = 34
-INVARIANTS EmitDecl EmitAuto DeclOnModel
+INVARIANTS EmitDecl EmitAuto DeclOnModel DeclKindOnModel GhostAgrees
 CHECK_DEADLOCK FALSE
